@@ -42,6 +42,7 @@ type Proc struct {
 	Queues map[string]*Queue
 	Work   map[string]func(ctx context.Context) bool // queue name -> run one work() iteration
 	Stp    *Stepper
+	Hung   bool   // a pass of this process blocked for good (see Stepper.Hung)
 	StpQ   string // queue the in-flight pass was taken from
 	StpKey string
 }
@@ -155,6 +156,7 @@ func (p *Proc) SyncBegin(qn, k string) Seg {
 	p.W.API.SetGate(p.Name, nil)
 	q.Pick = ""
 	if !more {
+		p.Hung = p.Hung || p.Stp.Hung
 		p.Stp = nil
 	}
 	return p.collect(n0, nil)
@@ -171,6 +173,7 @@ func (p *Proc) Step(fault error) Seg {
 	p.W.cur = nil
 	p.W.API.SetGate(p.Name, nil)
 	if !more {
+		p.Hung = p.Hung || p.Stp.Hung
 		p.Stp = nil
 	}
 	return p.collect(n0, &pend)
